@@ -6,7 +6,7 @@
 EXTENDS Args, TLC
 VARIABLES prog, dflt, xzopt, cmd
 vars == <<prog, dflt, xzopt, cmd>>
-Toks == {[o |-> x] : x \in {"z", "d", "k", "f", "c", "q", "Q"}}
+Toks == {[o |-> x] : x \in {"z", "d", "k", "f", "c", "q", "Q", "n"}}
           \cup {[o |-> "S", v |-> s] : s \in {<<".", "a">>, <<"b">>, <<"a", "/">>}}
           \cup {[o |-> "F", v |-> f] : f \in {"xz", "lzma", "raw"}}
 Seqs(n) == UNION {[1..k -> Toks] : k \in 0..n}
@@ -26,7 +26,7 @@ Cat == prog \in {"xzcat", "lzcat"}
 LzmaName == prog \in {"lzma", "unlzma", "lzcat"}
 BadSuffix == \E i \in 1..Len(All) : All[i].o = "S" /\ SuffixSet(All[i].v) = "fatal"
 
-FlagsAccumulate == /\ E.force = HasO(All, "f") /\ E.nowarn = HasO(All, "Q")
+FlagsAccumulate == /\ E.force = HasO(All, "f") /\ E.nowarn = HasO(All, "Q") /\ E.nosparse = HasO(All, "n")
                    /\ E.stdout = (HasO(All, "c") \/ Cat)
 StdoutImpliesKeep == E.keep = (HasO(All, "k") \/ E.stdout)
 ModeLastWins == E.mode = (IF HasO(All, "z") \/ HasO(All, "d")
@@ -35,5 +35,9 @@ ModeLastWins == E.mode = (IF HasO(All, "z") \/ HasO(All, "d")
 SuffixPrecedence == ~BadSuffix => E.custom = (LET t == ByPrecedence("S", [o |-> "S", v |-> NoCustom]) IN t.v)
 FormatPrecedence == LET f == ByPrecedence("F", [o |-> "F", v |-> IF LzmaName THEN "lzma" ELSE "auto"]).v IN
                     E.fmt = IF f = "auto" /\ E.mode = "compress" THEN "xz" ELSE f
+(* "-" is standard input only as an operand on the command line; lists drop empty entries and nothing else *)
+ASSUME /\ IsStdinName("cmd", <<"-">>) /\ ~IsStdinName("cmd", <<"-", "-">>) /\ ~IsStdinName("cmd", <<"-", "k">>)
+       /\ \A v \in Vias \ {"cmd"} : ~IsStdinName(v, <<"-">>)
+       /\ ListNames(<< <<>>, <<"-">>, <<>>, <<>>, <<"-", "-">>, <<"f">>, <<>> >>) = << <<"-">>, <<"-", "-">>, <<"f">> >>
 FatalExact == E.fatal = (BadSuffix \/ (E.fmt = "raw" /\ E.custom = NoCustom /\ ~E.stdout))
 =============================================================================
